@@ -473,3 +473,20 @@ pub proof fn lemma_rm_canon<P: Prefix, T>(t0: Seq<Node<P, T>>, live0: ISet<int>,
         }
     }
 }
+
+
+/// exit lemma of `_remove_node`: structural frame [C10] and canonical shape [C15] from one description of the outcome
+pub proof fn lemma_rm_post<P: Prefix, T>(t0: Seq<Node<P, T>>, live0: ISet<int>, t1: Seq<Node<P, T>>, live1: ISet<int>,
+        idx: int, par: Option<usize>, par_right: bool, grp: Option<usize>, grp_right: bool, flag: bool)
+    requires
+        twf_live(t0, live0), rm_pre(t0, live0, idx, par, par_right, grp, grp_right),
+        rm_outcome(t0, live0, t1, live1, idx, par, par_right, grp, grp_right, flag),
+        live1.contains(idx) ==> t1[idx].left == t0[idx].left && t1[idx].right == t0[idx].right && (idx == 0 || (t0[idx].left.is_some() && t0[idx].right.is_some())),
+        par.is_some() && live1.contains(par.unwrap() as int) && chd(t1, par.unwrap() as int, par_right).is_none() ==> grp.is_none() || t0[par.unwrap() as int].value.is_some(),
+    ensures
+        rt_frame(t0, live0, t1, live1, idx, par, par_right, grp, grp_right, flag),
+        tcanon(t0, live0) ==> tcanon(t1, live1),
+{
+    lemma_rm_frame(t0, live0, t1, live1, idx, par, par_right, grp, grp_right, flag);
+    if tcanon(t0, live0) { lemma_rm_canon(t0, live0, t1, live1, idx, par, par_right, grp, grp_right, flag); }
+}
